@@ -1,3 +1,5 @@
 import PfVerif.Audit.Tool
 import PfVerif.Props.C19
+import PfVerif.Lemmas.C19IV
 #audit_module PfVerif.Props.C19
+#audit_module_ns PfVerif.Lemmas.C19IV PfVerif.C19IV
